@@ -4,7 +4,7 @@
                               functions.py / Axis by Gen/GenXEval.v, regenerated from the source on every run)
    ref_eval   XPath/Ref.v     XPath 1.0 semantics of the subset (tied to lxml's engine by the same check)
    deviate    XPath/Ref.v     = xlate true: the three established deviations, and nothing else, applied to e
-   in_subset  XPath/Subset.v  decidable; excludes exactly the inputs on which one of the classes (a)-(l) occurs *)
+   in_subset  XPath/Subset.v  decidable; excludes exactly the inputs on which one of the open classes (c)-(l) occurs *)
 From Delb.Base Require Import PyStr.
 From Delb.Tree Require Import ATree ITree.
 From Delb.XPath Require Import Ast Nav Eval Ref Subset Run EvalRef OrderFacts C06Witness.
@@ -75,11 +75,12 @@ Example C06_example : in_subset (docnode ex_tree) ex_ns ex_expr ex_ctx = true /\
 Proof. vm_compute. split; reflexivity. Qed.
 
 (* ---- refutations: outside in_subset the full statement fails (findings.d/C06.json) *)
-Theorem C06_a_refuted : in_subset (docnode wa_tree) wa_ns wa_expr wa_ctx = false /\
-  got wa_tree wa_ns wa_expr wa_ctx = Ok [[0;0]; [0;1]]%nat /\ want wa_tree wa_ns wa_expr wa_ctx = Some [[0;1]]%nat.
+(* (a) and (b) were refutations until /repo commits 6531d56 / 6c8d927; now regression examples inside in_subset *)
+Example C06_a_fixed : in_subset (docnode wa_tree) wa_ns wa_expr wa_ctx = true /\
+  got wa_tree wa_ns wa_expr wa_ctx = Ok [[0;1]]%nat /\ want wa_tree wa_ns wa_expr wa_ctx = Some [[0;1]]%nat.
 Proof. vm_compute. repeat split. Qed.
-Theorem C06_b_refuted : in_subset (docnode wb_tree) wb_ns wb_expr wb_ctx = false /\
-  got wb_tree wb_ns wb_expr wb_ctx = Ok [] /\ want wb_tree wb_ns wb_expr wb_ctx = Some [[0;1]]%nat.
+Example C06_b_fixed : in_subset (docnode wb_tree) wb_ns wb_expr wb_ctx = true /\
+  got wb_tree wb_ns wb_expr wb_ctx = Ok [[0;1]]%nat /\ want wb_tree wb_ns wb_expr wb_ctx = Some [[0;1]]%nat.
 Proof. vm_compute. repeat split. Qed.
 Theorem C06_c_refuted : in_subset (docnode wc_tree) wc_ns wc_expr wc_ctx = false /\
   got wc_tree wc_ns wc_expr wc_ctx = Ok [[0;0]]%nat /\ want wc_tree wc_ns wc_expr wc_ctx = Some [].
